@@ -1,5 +1,6 @@
 import MwVerif.Lemmas.Archive.Stream
 import MwVerif.Lemmas.Archive.Index
+import MwVerif.Lemmas.Archive.FsEscape
 
 /-!
 # C14 — what is written into a collection archive is what is read back
@@ -209,6 +210,77 @@ theorem c14_redirect_resolves (ix : Index) (redirects : List (Nat × Nat)) (name
     (hr : dictGet redirects name = some target) (hp : lookupTitle ix target = some p) :
     getPageByName ix redirects name = some p := by
   simp [getPageByName, hr, hp]
+
+/-! ### file names of images: distinct canonical titles are kept apart -/
+
+/-- a title in the canonical form the MediaWiki API returns, over the property's alphabet: no
+underscore (the canonical form writes blanks), no blank-like character at either end, and every
+ASCII character other than `~ / \` (those are escaped) is a blank or survives the final filter
+`[^-\w.~]` (letters, digits, `-`, `.`).  Non-ASCII characters are unrestricted. -/
+structure Canon (isWs isWord : Char → Bool) (s : Str) : Prop where
+  noUnderscore : '_' ∉ s
+  ascii : ∀ c ∈ s, c.toNat < 128 → c ≠ '~' → c = ' ' ∨ keep isWord c = true
+  first : ∀ c, s.head? = some c → isWs c = false
+  last : ∀ c, s.getLast? = some c → isWs c = false
+
+theorem keep_blank {isWord : Char → Bool} (hu : isWord '_' = true) {x : Char} (h : x = ' ' ∨ keep isWord x = true) :
+    keep isWord (blankToUnderscore x) = true := by
+  unfold blankToUnderscore
+  split
+  · simp [keep, hu]
+  · rename_i hne
+    rcases h with h | h
+    · exact absurd h hne
+    · exact h
+
+theorem fsEscape_canon {isWs isWord : Char → Bool} (hws : isWs '~' = false) (hu : isWord '_' = true)
+    (hd : ∀ c : Char, c.isDigit = true → isWord c = true) {s : Str} (hs : Canon isWs isWord s) :
+    fsEscape isWs isWord s = (s.flatMap enc).map blankToUnderscore := by
+  rw [fsEscape_eq, stripWs_id]
+  · apply filter_id
+    intro y hy
+    rw [List.mem_map] at hy
+    obtain ⟨x, hx, rfl⟩ := hy
+    rcases mem_flatMap_enc hx with ⟨hm, ha, ht⟩ | rfl | hdig
+    · exact keep_blank hu (hs.ascii x hm ha ht)
+    · exact keep_blank hu (Or.inr (by simp [keep]))
+    · exact keep_blank hu (Or.inr (by simp [keep, hd x hdig]))
+  · intro c hc
+    rcases flatMap_enc_head s c hc with h | rfl
+    · exact hs.first c h
+    · exact hws
+  · intro c hc
+    rcases flatMap_enc_last s c hc with h | rfl
+    · exact hs.last c h
+    · exact hws
+
+theorem underscore_not_mem_escape {s : Str} (h : '_' ∉ s) : '_' ∉ s.flatMap enc := by
+  intro hm
+  rcases mem_flatMap_enc hm with ⟨hm', _, _⟩ | h' | h'
+  · exact h hm'
+  · exact absurd h' (by decide)
+  · rw [underscore_not_digit] at h'; cases h'
+
+/-- **C14 (distinct titles are kept apart).**  `fs_escape` is injective on canonical titles: the
+per-character escape (`~~`, `~<code point>~`) is a prefix code, blanks become underscores (which a
+canonical title does not contain) and the strip and the final filter remove nothing.  The three
+hypotheses on `isWs`/`isWord` are facts about Python's `str.isspace` and `\w` that the check
+asserts on the running interpreter. -/
+theorem c14_fs_escape_injective {isWs isWord : Char → Bool} (hws : isWs '~' = false) (hu : isWord '_' = true)
+    (hd : ∀ c : Char, c.isDigit = true → isWord c = true) {s t : Str}
+    (hs : Canon isWs isWord s) (ht : Canon isWs isWord t)
+    (h : fsEscape isWs isWord s = fsEscape isWs isWord t) : s = t := by
+  rw [fsEscape_canon hws hu hd hs, fsEscape_canon hws hu hd ht] at h
+  exact flatMap_enc_inj
+    (map_blank_inj (underscore_not_mem_escape hs.noUnderscore) (underscore_not_mem_escape ht.noUnderscore) h)
+
+/-- the hypotheses are satisfiable by a title with a blank, a tilde and a non-ASCII letter. -/
+example : Canon (fun c => c = ' ') (fun c => c.isAlphanum || c = '_') ['A', ' ', '~', 'é', '.', '1'] :=
+  ⟨by decide, by decide, by decide, by decide⟩
+
+/-- without the canonical form the claim is false: a blank and an underscore collide. -/
+example : fsEscape (fun c => c = ' ') (fun c => c.isAlphanum || c = '_') ['a', ' ', 'b']
+    = fsEscape (fun c => c = ' ') (fun c => c.isAlphanum || c = '_') ['a', '_', 'b'] := by decide
 
 /-! ### Non-vacuity -/
 
